@@ -341,6 +341,7 @@ func (r *Runner) NewInst(cfg ScriptCfg) (*Inst, error) {
 	in.Sym["H1"] = "127.0.0.1"
 	in.Sym["H2"] = "127.0.0.2"
 	in.Sym["HL"] = "localhost"
+	in.Sym["HLU"] = "LOCALHOST"
 	in.Sym["H6"] = "::1"
 	in.Sym["H127"] = "127.0.0."
 	in.Sym["PH"] = "{{ preferred_username }}"
